@@ -12,6 +12,43 @@ LEVEL_TEXT = (
 )
 
 
+def _check_hif_incidence_keys(ctx, res):
+    import ast
+
+    from ..kinds import Lst, Seq, St, Union, strip_none
+    from ..model import loc, norm, walk_no_nested
+
+    # does the container canonicalise the key itself?  (then any spelling of the hyperedge is fine)
+    setter = ctx.require("Hypergraph.set_incidence_metadata")
+    sv = ctx.view(setter)
+    pe = setter.params[1].arg if len(setter.params) > 1 else "edge"
+    raw_store = any(
+        isinstance(n, ast.Assign) and isinstance(n.targets[0], ast.Subscript) and any(isinstance(x, ast.Name) and x.id == pe for x in ast.walk(n.targets[0].slice)) and not any(isinstance(x, ast.Name) and x.id == pe and isinstance(x.ctx, ast.Store) for x in ast.walk(setter.node))
+        for n in walk_no_nested(setter.node)
+    )
+    if not raw_store:
+        res.ok("S-HIF", setter.short, f"def {setter.name}", "container-canonicalises", loc(setter, setter.node))
+        return
+    n = 0
+    for fi in S.closure(ctx, ctx.require("hif.read_hif")):
+        v = ctx.view(fi)
+        for c in walk_no_nested(fi.node):
+            if isinstance(c, ast.Call) and isinstance(c.func, ast.Attribute) and c.func.attr == "set_incidence_metadata" and c.args:
+                n += 1
+                k = strip_none(v.kind(c.args[0]))
+                e = v.inline(c.args[0])
+                sorted_expr = isinstance(e, ast.Call) and norm(e.func) == "tuple" and e.args and isinstance(e.args[0], ast.Call) and norm(e.args[0].func) == "sorted"
+                if (isinstance(k, Seq) and k.canon) or sorted_expr:
+                    st = "ok"
+                elif isinstance(k, Seq) and not k.canon:
+                    st = "violation"
+                else:
+                    st = "unknown"
+                res.add("S-HIF", fi.short, norm(c), "canonical-edge", st, "" if st == "ok" else "the incidence record is filed under the node tuple in file order: Hypergraph.set_incidence_metadata stores the key as given, so get_incidence_metadata(<edge from get_edges()>, node) does not find it", loc(fi, c))
+    if n == 0:
+        res.unknown("S-HIF", "hif.read_hif", "set_incidence_metadata", "canonical-edge", "no incidence record is stored by the reader (call not found)", "")
+
+
 def run(ctx):
     res = Result("C06")
     res.rules.update({k: KIND_RULES[k] for k in ("C-SIG", "K-ARG", "K-KEY")})
@@ -22,6 +59,7 @@ def run(ctx):
         "S-RESERVED": "reserved keys are written from the live weight/time/layer and override user metadata of the same name",
         "S-LOADARGS": "values handed to add_node/add_edge by the json reader come from the record field of the same meaning",
         "S-PICKLE": "every table is exposed and restored under one and the same key; the snapshot is tagged with its class",
+        "S-HIF": "HIF reader: incidence attribute records are filed under the canonical (sorted) node tuple, the key get_edges() hands out (Hypergraph.set_incidence_metadata stores its edge argument as given)",
         "S-HGR": "hMETIS reader: weights and hyperedges grow together; a weighted hyperedge skips the weight entry",
     })
     files = ["hypergraphx/readwrite/save.py", "hypergraphx/readwrite/load.py", "hypergraphx/readwrite/hif.py"]
@@ -46,6 +84,8 @@ def run(ctx):
         S.check_pickle(ctx, res)
     with res.guard("S.check_hgrctx, res"):
         S.check_hgr(ctx, res)
+    with res.guard("S-HIF: incidence records are filed under the canonical hyperedge"):
+        _check_hif_incidence_keys(ctx, res)
     res.assumptions += [
         "JSON representability of labels / metadata and the tokenisation of .hgr lines are not decided",
         "the HIF reader is checked for call conformance only (see the known finding on directed HIF documents)",
